@@ -603,11 +603,18 @@ def mon_c06(t):
     delseen = set()
     removed = set()
     fetched = {}
+    served = {}      # node -> (ClusterCIDR name, CIDRs): who the controller itself took the node's blocks from, this incarnation
     for k, op in enumerate(t.ops):
         f = op.split()
         if f[0] == "cc+":
             removed.discard(f[1])
             delseen.discard(f[1])
+            if k > 0 and f[1] not in {c["name"] for c in t.api[k - 1][1]}:
+                served = {n: v for n, v in served.items() if v[0] != f[1]}
+        if f[0] == "n-":
+            served.pop(f[1], None)
+        if f[0] in ("crash", "construct"):
+            served = {}      # after a restart the node is accounted to whichever ClusterCIDR re-occupies its CIDRs
         # which ClusterCIDR object does this step process?
         proc = None
         if f[0] == "pc" and k > 0:
@@ -643,9 +650,20 @@ def mon_c06(t):
                                 if tracked and p and any(overlap(c, key) for key in p["keys"]):
                                     bad.append({"step": k, "clause": "finalizer removed while an existing node depends on the ClusterCIDR",
                                                 "detail": "%s still reserves %s for node %s" % (e["name"], c, n["name"]), "cls": classify_c06(t, k, en, n)})
+                    # ... or the controller itself took the node's current pod CIDRs from this ClusterCIDR (its own records of
+                    # that may be gone: the history of its writes is the ground truth)
+                    for n in t.api[k - 1][0]:
+                        sv = served.get(n["name"])
+                        if sv and sv[0] == e["name"] and not n["deleting"] and n["cidrs"] and sorted(map(str, n["cidrs"])) == sorted(map(str, sv[1])) \
+                                and not any(b["step"] == k and ("node %s" % n["name"]) in b["detail"] for b in bad):
+                            bad.append({"step": k, "clause": "finalizer removed while an existing node depends on the ClusterCIDR",
+                                        "detail": "%s was the source of %s written to node %s, which still exists" % (e["name"], sv[1], n["name"]),
+                                        "cls": "dependant-served-earlier"})
                     removed.add(e["name"])
             if e["kind"] == "patch" and e["out"] in ("ok", "tmo"):
                 ent = entry_of_patch(t.snap[k], e["node"], e["cidrs"])
+                if ent is not None and e["node"] in ent["assoc"]:
+                    served[e["node"]] = (ent["name"], e["cidrs"])
                 if ent is not None and ent["name"] in delseen:
                     bad.append({"step": k, "clause": "allocation from a ClusterCIDR after its deletion request was processed",
                                 "detail": "%s served from %s" % (e["node"], ent["name"]), "cls": "allocated-after-deletion-processed"})
@@ -733,4 +751,25 @@ def mon_c03(t):
                     if not (any(overlap(key, c) for n in nodes for c in n["cidrs"]) or any(overlap(key, s) for s in svc)):
                         bad.append({"step": k, "clause": "a block is reserved after restart with no listed node or service range justifying it",
                                     "detail": "%s in %s" % (key, en["name"]), "cls": "resurrected-reservation"})
+        # every listed node whose pod CIDRs all lie inside the ranges of a mapped ClusterCIDR that selects it (terminating
+        # ones included) is associated again, with all its pod CIDRs reserved, before anything is allocated
+        specs = t.spec_at(k)
+        for n in nodes:
+            cs = n["cidrs"]
+            if not cs or any(c is None for c in cs):
+                continue
+            elig = []
+            for en in t.snap[k]:
+                sp = specs.get(en["name"])
+                if sp is None or not sel_matches(sp["sel"], n["labels"]):
+                    continue
+                if all(sp[c[0]] is not None and en[c[0]] is not None and inside(c, sp[c[0]]) for c in cs):
+                    elig.append(en["name"])
+            if not elig:
+                continue
+            held = [en for en in t.snap[k] if n["name"] in en["assoc"]
+                    and all(en[c[0]] is not None and any(overlap(c, key) for key in en[c[0]]["keys"]) for c in cs)]
+            if not held:
+                bad.append({"step": k, "clause": "a listed node's pod CIDRs are not reserved again after restart",
+                            "detail": "%s holds %s, eligible ClusterCIDRs %s" % (n["name"], cs, elig), "cls": "listed-node-not-reserved"})
     return bad + [b for b in mon_c01(t) if "listed" in b["detail"]]
